@@ -6,7 +6,7 @@ CONSTANTS StageSet, MaxK, InsKind
 SeqsUpTo(S, d) == UNION {[1..k -> S] : k \in 0..d}
 Windows == {<<1, 0>>, <<2, 0>>, <<2, 1>>, <<3, 1>>}
 Ins == IF InsKind = "q" THEN {<<1, 2, 3, 4>>}
-       ELSE {<<>>, <<3>>, <<1, 2, 3>>, <<2, 3, 4, 5, 6>>, <<2, 2, 1, 4, 3, 6, 5>>}
+       ELSE {<<>>, <<3>>, <<2, 3, 4>>, <<1, 2, 3, 4, 5>>}
 \* flow stages and the sink use the window w; a batch stage keeps a window larger than its batch size
 Configs == {[kinds |-> ks, inp |-> in,
              w |-> [i \in 1..(Len(ks) + 1) |-> IF i <= Len(ks) /\ BatchN(ks[i]) # 0 THEN [d |-> 4, r |-> 1] ELSE [d |-> w[1], r |-> w[2]]]] :
